@@ -249,7 +249,11 @@ enum Line {
     Malformed,
 }
 
-fn classify(l: &[u8]) -> Line {
+/// `lenient_keys`: field names may hold any printable ASCII character except the colon. The
+/// protocol does not restrict field names; the library's alphabet (letters, `_`, `-`) is what it
+/// accepts today, so a line whose name lies outside it is *unspecified*, not malformed: rejecting it
+/// and accepting it verbatim are both faithful.
+fn classify(l: &[u8], lenient_keys: bool) -> Line {
     if l == b"OK" {
         return Line::Ok;
     }
@@ -268,7 +272,7 @@ fn classify(l: &[u8]) -> Line {
         }
     }
     // <key>: <value>
-    let klen = l.iter().take_while(|&&b| is_key_byte(b)).count();
+    let klen = l.iter().take_while(|&&b| is_key_byte(b) || lenient_keys && b.is_ascii_graphic() && b != b':').count();
     if klen == 0 {
         return Line::Malformed;
     }
@@ -322,6 +326,11 @@ fn classify_ack(r: &[u8]) -> Option<AError> {
 
 /// Decode a whole server byte stream (after the greeting) by the reference grammar.
 pub fn ref_decode(stream: &[u8]) -> RefDecoded {
+    ref_decode_with(stream, false)
+}
+
+/// see `classify` for `lenient_keys`
+pub fn ref_decode_with(stream: &[u8], lenient_keys: bool) -> RefDecoded {
     let mut out = RefDecoded { responses: vec![], boundaries: vec![], end: RefEnd::Clean, malformed_at: None };
     let mut pos = 0usize;
     // builder
@@ -342,7 +351,7 @@ pub fn ref_decode(stream: &[u8]) -> RefDecoded {
         let line = &stream[pos..pos + rel];
         let line_start = pos;
         pos += rel + 1;
-        match classify(line) {
+        match classify(line, lenient_keys) {
             Line::Malformed => {
                 out.end = RefEnd::Malformed;
                 out.malformed_at = Some(line_start);
